@@ -1,15 +1,36 @@
 package h_gun
 
 import (
+	"encoding/json"
+	"fmt"
 	"testing"
 
 	"github.com/yandex/pandora/zverif/hutil"
 )
 
 func runOther(t *testing.T, spec *hutil.Spec, out *hutil.Out) {
-	out.HarnessErr = "unknown property " + spec.Property
+	switch spec.Property {
+	case "C09":
+		runC09(spec, out)
+	default:
+		out.HarnessErr = "unknown property " + spec.Property
+	}
 }
 
 func replayOther(t *testing.T, spec *hutil.Spec, out *hutil.Out, tier string) {
-	out.HarnessErr = "unknown replay tier " + tier
+	switch tier {
+	case "c09":
+		initPlugins()
+		var w struct {
+			Cell C09Cell `json:"cell"`
+		}
+		_ = json.Unmarshal(spec.Replay, &w)
+		err := runC09Cell(w.Cell)
+		fmt.Printf("cell %s\nfile %q\nverdict: %v\n", w.Cell.Name(), render(w.Cell.File.Format, w.Cell.File.Items, w.Cell.File.Layout), err)
+		if err != nil {
+			out.Violate("C09|replay", err.Error(), spec.Replay)
+		}
+	default:
+		out.HarnessErr = "unknown replay tier " + tier
+	}
 }
